@@ -35,6 +35,12 @@ def gen_scenario(rng, opts=None):
                      "tags": sorted(rng.sample([1, 2, 3], rng.randint(0, 2)))})
         if rng.random() < 0.15:
             jobs[-1]["raises"] = True
+        if not once and rng.random() < opts.get("p_batched", 0.25):
+            # a batched job with several overdue times: rescheduling touches one timer and then re-chooses the pending one
+            m = rng.sample(range(60), rng.randint(2, 3))
+            jobs[-1].update({"call": 2, "timings": [["t", 0, mm, rng.randrange(60), 0, None] for mm in m], "is_list": True,
+                             # 3599 s: every listed time has exactly one overdue occurrence (the next one lies in the future)
+                             "start": [clock - rng.choice([3599, 3599, 2 * 3600 + 1, 5 * 3600]) * S, None]})
     if rng.random() < 0.3:
         for j in rng.sample(jobs, min(2, len(jobs))):
             j["pass_sched"] = True           # callbacks are handed their scheduler as an argument
@@ -85,6 +91,7 @@ def scenarios(rng, n, tier):
 
 
 LOCK_RANK = {"X": 0, "R": 1, "L": 2, "T": 3}
+LIN_MAX_WIDTH = 13
 
 
 def lock_classes(runner):
@@ -168,6 +175,21 @@ def lin_query(scn, out):
             for k in sorted(set(retire)):
                 recs.append(f"{r['inv']} {r['res']} fin {eid} 1 {k}")
     tagtoks = " ".join(f"{k} {core.s_list(v)}" for k, v in sorted(tags.items()))
+    # the decision procedure is exact but exponential in the number of points that are pairwise concurrent: histories wider
+    # than LIN_MAX_WIDTH (several overlapping exec_jobs calls each retiring many jobs) are not submitted (counted in the
+    # evidence as lin-too-wide); every other clause is still evaluated on them
+    evs = []
+    for rline in recs:
+        a, b = rline.split()[:2]
+        evs.append((int(a), 1))
+        evs.append((int(b) + 1, -1))
+    depth = cur = 0
+    for _t, d in sorted(evs):
+        cur += d
+        depth = max(depth, cur)
+    out["lin_width"] = depth
+    if depth > LIN_MAX_WIDTH:
+        return None
     return f"spec linearizable {len(tags)} {tagtoks} {core.s_list(out['init'])} {core.s_list(out['final'] or [])} {len(recs)} " + " ".join(recs)
 
 
@@ -186,6 +208,8 @@ def runner(scn):
         problems.append("wait-while-holding " + json.dumps(out["wait_violations"][:3]))
     if out.get("left_holding"):
         problems.append("finished-while-holding " + json.dumps(out["left_holding"][:3]))
+    if out.get("registry_discipline"):
+        problems.append("registry-discipline " + json.dumps(out["registry_discipline"][:3]))
     impl = ["S ok", "ok" if not problems else "; ".join(problems)]
     return lines, impl, [out]
 
@@ -221,6 +245,32 @@ def specs(r):
     for k, v in (out.get("jobs") or {}).items():
         if v[3] > 0:
             qs.append((f"spec le {v[0]} {v[3]}", {"what": "budget", "key": k, "attempts": v[0], "max": v[3]}))
+    # an exec_jobs call chooses its batch from ONE state of every job: a job that is registered from before the call until
+    # after it, and whose due time - before, after and between all reschedulings that completed up to the call's return - was
+    # never later than the clock, is due in every sequential order and must be in the batch
+    tl = out.get("due_timeline")
+    if tl and not scn.get("max_exec"):
+        now = out.get("now")
+        final = set(out.get("final") or [])
+        for rec in out["records"]:
+            if rec["op"] != "exec" or rec["args"].get("force") or rec["result"][0] != "c":
+                continue
+            batch = out.get("selected", {}).get(str(rec.get("exec_id")))
+            if batch is None:
+                continue
+            for k in out["init"]:
+                if k not in final or k >= len(scn["jobs"]) or (scn["jobs"][k].get("w") not in (None,)):
+                    continue
+                vals = [(t, d) for (t, d) in tl.get(k, []) if t <= rec["res"]]
+                if vals and all(d <= now for (_t, d) in vals) and k not in batch:
+                    qs.append(("spec eq 0 1", {"what": "a job that was due during the whole exec_jobs call was not chosen (batch not taken from one state of the job)",
+                                               "key": k, "exec": rec.get("exec_id"), "dues": sorted({d for _t, d in vals}), "now": now}))
+    # "rescheduling ... each job it ran": every run of an unlimited job is followed by exactly one rescheduling, whoever ran it
+    if tl is not None and not out.get("deadlock"):
+        for k, v in (out.get("jobs") or {}).items():
+            if v[3] == 0 and (out.get("stops") or {}).get(k) is None and not any(rec["op"] == "exec" and rec["args"].get("force") for rec in out["records"]):
+                qs.append((f"spec eq {(out.get('reschedulings') or {}).get(k, 0)} {v[0]}",
+                           {"what": "every execution moves the due time exactly once (reschedulings = executions)", "key": k}))
     q = lin_query(scn, out)
     if q is not None:
         qs.append((q, {"what": "registry_linearizable", "records": [(x["thread"], x["op"], x["args"], list(x["result"]), x["inv"], x["res"]) for x in sorted(out["records"], key=lambda z: z["inv"])],
@@ -242,6 +292,8 @@ def classes(r):
     overl = any(a["inv"] < b["res"] and b["inv"] < a["res"] and a is not b for a in recs for b in recs if a["thread"] != b["thread"])
     if overl:
         cl.append("overlap")
+    if out.get("lin_width", 0) > LIN_MAX_WIDTH:
+        cl.append("lin-too-wide")
     return sorted(set(cl))
 
 
